@@ -87,7 +87,13 @@ RULE = ("(a) one `sites` case: translator/sites.py scans every .py/.pyx under en
         "shortcut), 8-12 centers, with a caller-supplied Manhattan metric that returns float32 and, while it works, allocates, fills and frees an "
         "8n-byte scratch vector; the call is repeated with the scratch (and 28 blocks freed just before the call) holding nothing / NaN / -1 / 0 / 7.5, "
         "in the long-lived child and in a fresh one: centers, distances and assignments of all 14 runs equal; non-trivial := the metric was asked "
-        "for a proper subset of the frames at least once.")
+        "for a proper subset of the frames at least once. (l) `seeded` cases (20 quick / 120 thorough): the routines that take `random_state` "
+        "-- kmedoids (cold start and warm start from given centre indices), hybrid, KHybrid(...).fit, KCenters(...).fit, mpi.ops.randind -- on "
+        "16-60 integer-valued frames, 3-6 centres, called with the integer seed 0 and with another seed (1, 7, 12345, 2^31-5, 2^32-1; as int / "
+        "np.int64 / np.int32), each five times in one process after different histories of the process-wide generators (np.random.seed(a) and "
+        "random.seed(a) with 0-5 draws consumed, seed b with 0-1000 draws, seed a again with more draws, or left as the previous call left "
+        "them): centres, distances and assignments (or the exception type) of the five runs with the same seed equal; the data argument "
+        "unchanged; non-trivial := all ten runs returned a value.")
 
 TRUSTED = ["translator/sites.py: the `where=` scan (ast for .py, token scan + per-call parse for .pyx), its tables of ufunc / "
            "reduction / allocator names, and the rule that a where= passed through **kwargs or a partial is not seen",
@@ -1877,6 +1883,112 @@ def _oracle_kcti(c, r):
     return out
 
 
+# ============================================================================ seeded routines vs the global generators
+SEEDED_ROUTINES = ["kmedoids", "kmedoids", "kmedoids", "kmedoids.warm", "hybrid", "hybrid", "KHybrid", "KHybrid", "KCenters", "randind"]
+SEEDED_OTHER = [1, 7, 12345, 2 ** 31 - 5, 2 ** 32 - 1]
+
+
+def _gen_seeded(rng, routine):
+    """a routine that takes `random_state`, called with the integer seed 0 and with another seed, each after several
+    different histories of the process-wide generators (np.random seeded with a / b and some draws consumed, Python's
+    `random` likewise, or left as the previous call left them)"""
+    n = rng.choice([16, 24, 30, 40, 60])
+    d = rng.choice([1, 2, 2, 3])
+    X = [[rng.randint(-6, 6) for _ in range(d)] for _ in range(n)]
+    k = rng.randint(3, 6)
+    a, b = rng.sample(range(1, 10 ** 6), 2)
+    hists = [["asis"], ["seed", a, rng.choice([0, 1, 5])], ["seed", b, rng.choice([0, 3, 1000])],
+             ["seed", a, rng.choice([7, 64])], ["asis"]]
+    return {"kind": "seeded", "routine": routine, "X": X, "k": k, "n_iters": rng.choice([1, 2, 3, 5]),
+            "metric": rng.choice(["euclidean", "manhattan"]), "centers": sorted(rng.sample(range(n), k)),
+            "seeds": [0, rng.choice(SEEDED_OTHER)], "seed_type": rng.choice(["int", "int", "np.int64", "np.int32"]),
+            "hists": hists}
+
+
+def _seeded_call(c, X, seed):
+    from enspara.cluster import kmedoids as KM, hybrid as HY, kcenters as KC
+    name = c["routine"]
+    if c["seed_type"] != "int" and seed < 2 ** 31:
+        seed = getattr(np, c["seed_type"][3:])(seed)
+    if name == "randind":
+        from enspara.mpi import ops
+        return [list(ops.randind(np.arange(len(X)), seed)) for _ in range(1)]
+    if name == "kmedoids":
+        r = KM.kmedoids(X, c["metric"], n_clusters=c["k"], n_iters=c["n_iters"], random_state=seed)
+    elif name == "kmedoids.warm":
+        r = KM.kmedoids(X, c["metric"], cluster_center_inds=list(c["centers"]), n_iters=c["n_iters"], random_state=seed)
+    elif name == "hybrid":
+        r = HY.hybrid(X, c["metric"], n_iters=c["n_iters"], n_clusters=c["k"], random_state=seed)
+    elif name == "KHybrid":
+        r = HY.KHybrid(c["metric"], n_clusters=c["k"], kmedoids_updates=c["n_iters"], random_state=seed).fit(X).result_
+    elif name == "KCenters":
+        r = KC.KCenters(c["metric"], n_clusters=c["k"], random_state=seed).fit(X).result_
+    else:
+        raise ValueError(name)
+    return [np.asarray(r.center_indices), np.asarray(r.distances), np.asarray(r.assignments)]
+
+
+def _execute_seeded(c):
+    import random as pyrandom
+    import warnings
+    warnings.filterwarnings("ignore")
+    X = np.array(c["X"], dtype=float)
+    x0 = X.copy()
+    out = {"runs": [], "fails": []}
+    for seed in c["seeds"]:
+        ref = None
+        for h in c["hists"]:
+            if h[0] == "seed":
+                np.random.seed(h[1])
+                pyrandom.seed(h[1])
+                if h[2]:
+                    np.random.random(h[2])
+                    pyrandom.random()
+            try:
+                v = _seeded_call(c, X, seed)
+                got = {"digest": _digest(v)}
+                show = [[int(t) for t in np.asarray(v[0]).ravel()[:12]]]
+            except Exception as ex:
+                v, got, show = None, {"err": type(ex).__name__, "msg": str(ex)[:100]}, None
+            out["runs"].append([seed, h, got.get("digest") or "err:" + got["err"]])
+            cmpable = {x: got[x] for x in got if x != "msg"}
+            if ref is None:
+                ref = (h, cmpable, v, show)
+            elif cmpable != ref[1]:
+                f = {"seed": seed, "hist": h, "ref_hist": ref[0], "got": got.get("err"), "ref": ref[1].get("err"),
+                     "centers": show, "ref_centers": ref[3]}
+                if v is not None and ref[2] is not None and len(v) == 3:
+                    f["assignments_differ"] = int(np.count_nonzero(np.asarray(v[2]) != np.asarray(ref[2][2])))
+                out["fails"].append(f)
+    out["args_kept"] = bool(np.array_equal(X, x0))
+    out["fails"] = out["fails"][:4]
+    return out
+
+
+def _oracle_seeded(c, r):
+    if "err" in r:
+        return [("crash:seeded-" + c["routine"], "seeded-routine probe: %s (case %s)" % (r, json.dumps(c)[:300]))]
+    out = []
+    what = {"kmedoids": "kmedoids(X, %r, n_clusters=%d, n_iters=%d, random_state=S)" % (c["metric"], c["k"], c["n_iters"]),
+            "kmedoids.warm": "kmedoids(X, %r, cluster_center_inds=%s, n_iters=%d, random_state=S)" % (c["metric"], c["centers"], c["n_iters"]),
+            "hybrid": "hybrid(X, %r, n_iters=%d, n_clusters=%d, random_state=S)" % (c["metric"], c["n_iters"], c["k"]),
+            "KHybrid": "KHybrid(%r, n_clusters=%d, kmedoids_updates=%d, random_state=S).fit(X)" % (c["metric"], c["k"], c["n_iters"]),
+            "KCenters": "KCenters(%r, n_clusters=%d, random_state=S).fit(X)" % (c["metric"], c["k"]),
+            "randind": "mpi.ops.randind(np.arange(%d), S)" % len(c["X"])}[c["routine"]]
+    hs = lambda h: "the generators as the previous call left them" if h[0] == "asis" else \
+        "np.random.seed(%d) / random.seed(%d) and %d draws consumed" % (h[1], h[1], h[2])
+    for f in r["fails"]:
+        out.append(("global-rng-history-dependence:" + c["routine"],
+                    "%s with S = %s(%d) on %d integer-valued frames (%d features): after %s the call returned centers %s; after %s: centers %s "
+                    "(%s assignments different)%s -- same arguments, another history of the process-wide generators"
+                    % (what, c["seed_type"], f["seed"], len(c["X"]), len(c["X"][0]), hs(f["hist"]), f.get("centers"), hs(f["ref_hist"]),
+                       f.get("ref_centers"), f.get("assignments_differ"),
+                       "" if not (f.get("got") or f.get("ref")) else " [exceptions: %s / %s]" % (f.get("got"), f.get("ref")))))
+    if not r.get("args_kept", True):
+        out.append(("argument-mutated:seeded-" + c["routine"], "%s changed its data argument" % what))
+    return out
+
+
 # ============================================================================ child processes
 class _Child:
     def __init__(self, threads, label):
@@ -1936,7 +2048,7 @@ def _child(label, threads):
 
 
 EXECUTORS = {"file": _execute_file, "bgrid": _execute_bgrid, "rahist": _execute_rahist, "thr": _execute_thr,
-             "nproc": _execute_nproc, "kcti": _execute_kcti}
+             "nproc": _execute_nproc, "kcti": _execute_kcti, "seeded": _execute_seeded}
 
 
 def _worker_main():
@@ -2092,6 +2204,10 @@ def generate(rng, tier):
         thr[k]["routine"], thr[k]["form"] = routine, form          # every shape occurs in every run
         thr[k]["ntraj"] = thr[k]["ntraj"] if routine == "mi_matrix" else 1
     cases += thr
+    # round 3s (E): seeded routines after different histories of the process-wide random generators
+    for rep in range(2 if tier == "quick" else 12):
+        for name in SEEDED_ROUTINES:
+            cases.append(_gen_seeded(rng, name))
     return cases
 
 
@@ -2173,7 +2289,7 @@ def run_impl(c):
         return _run_ufunc(c)
     if c["kind"] == "wbr":
         return _run_wbr(c)
-    if c["kind"] in ("bgrid", "rahist", "nproc"):
+    if c["kind"] in ("bgrid", "rahist", "nproc", "seeded"):
         return _child("t1", 1).call(c)
     if c["kind"] == "kcti":
         # in the long-lived child (a heap with a history) and in a fresh one
@@ -2324,6 +2440,8 @@ def oracle(c, r):
         return _oracle_nproc(c, r)
     if c["kind"] == "kcti":
         return _oracle_kcti(c, r)
+    if c["kind"] == "seeded":
+        return _oracle_seeded(c, r)
     if c["kind"] == "thr":
         return _oracle_thr(c, r)
     name = c["routine"]
@@ -2471,6 +2589,8 @@ def nontrivial(c, r):
         return "err" not in r and len({k for k, _rep, how in r.get("runs", []) if how == "value"}) >= 2
     if c["kind"] == "kcti":
         return "err" not in r and r.get("partial", 0) > 0 and sum(1 for _f, how in r["runs"] if how == "value") >= 2
+    if c["kind"] == "seeded":
+        return "err" not in r and len(r.get("runs", [])) >= 4 and not any(str(d).startswith("err:") for _s, _h, d in r["runs"])
     return _ok_everywhere(r)
 
 
@@ -2554,6 +2674,20 @@ def tags(c, r):
                 t.append("nproc-16-processes")
         t += ["nproc-call-raises"] if any(how != "value" for _k, _rep, how in r["runs"]) else []
         return t
+    if c["kind"] == "seeded":
+        if "err" in r:
+            return ["exception-or-crash"]
+        t = ["seeded", "seeded:" + c["routine"], "seeded-type-" + c["seed_type"]]
+        if nontrivial(c, r):
+            t.append("seeded-all-histories-returned:" + c["routine"])
+            by = {}
+            for sd, _h, d in r["runs"]:
+                by.setdefault(sd, set()).add(d)
+            if 0 in by:
+                t.append("seeded-seed-0:" + c["routine"])
+            if len(set.union(*by.values())) > 1 and all(len(v) == 1 for v in by.values()):
+                t.append("seeded-result-depends-on-seed:" + c["routine"])     # the random choices matter on this input
+        return t
     if c["kind"] == "kcti":
         if "err" in r:
             return ["exception-or-crash"]
@@ -2617,7 +2751,9 @@ ESSENTIAL_TAGS = (["sites-scan", "masked-site-guarded", "ufunc-out", "ufunc-noou
                      "kcti-all-heap-histories-returned", "rahist-rectangular-built-flat", "rahist-observed-after-append",
                      "rahist-observed-after-setitem", "rahist-offsets-read-then-append-then-2d-lookup", "rahist-compared-with-fresh",
                      "rahist-compared-with-twin", "thr:joint_counts-1d", "thr:joint_counts-col", "thr:joint_counts-self",
-                     "thr:mi_matrix-col", "threads-4", "threads-16"])
+                     "thr:mi_matrix-col", "threads-4", "threads-16"]
+                  + ["seeded-seed-0:" + n for n in sorted(set(SEEDED_ROUTINES))]
+                  + ["seeded-result-depends-on-seed:" + n for n in ("kmedoids", "hybrid", "KHybrid")])
 
 
 def search(rng, tier):
